@@ -93,6 +93,11 @@ def specAcceptedBinds (v : View) (valid : Nat → Nat → Bool) (accepted : Bool
     (wellFormed v && bound v && widthOK v &&
      Lumina.Spec.C03.specLightSound (c03Input v) valid true)
 
+/-- the same without the voting-power clause (for sets whose stored total is not the sum of the
+    powers — impossible through tendermint's constructors, possible through the `pub` fields) -/
+def specAcceptedStructure (v : View) (accepted : Bool) : Bool :=
+  !accepted || (wellFormed v && bound v && widthOK v)
+
 /-- **changing any consensus-relevant part makes validation fail**: if the original is accepted,
     the changed one is not.  (Which pairs count as "changed in a consensus-relevant part" is decided
     by the caller: the driver compares the two headers field by field.) -/
